@@ -92,7 +92,7 @@ impl Part for C14 {
         let (enc_ref, ct_ref) = match want {
             Some(x) => x,
             None => {
-                out.fail("R1 setup failed");
+                out.fail_machinery("R1 setup failed");
                 return out;
             }
         };
@@ -240,7 +240,7 @@ fn boundary_case(out: &mut CaseOut, _cfg: &Cfg, c: &Case, ops: &dyn crate::suite
     let (enc, refctx) = match r1_setup_s(c.suite, m, &k.pk_r, info, &k.ikm_e) {
         Some(x) => x,
         None => {
-            out.fail("R1 setup failed");
+            out.fail_machinery("R1 setup failed");
             return;
         }
     };
@@ -437,7 +437,7 @@ impl Part for C15 {
                 let (enc_ref, rctx) = match r1_setup_s(*suite, &m, &k.pk_r, &info, &k.ikm_e) {
                     Some(x) => x,
                     None => {
-                        out.fail("R1 setup failed");
+                        out.fail_machinery("R1 setup failed");
                         return out;
                     }
                 };
